@@ -5,7 +5,7 @@ from ..common import proof_part, report_diffs
 TB = ["Coq 8.16.1 kernel; no axioms", "zvt2coq translator (layouts regenerated)", "extraction + ocaml/driver.ml",
       "harness/src/bin/codec.rs + the Debug-text parser it uses to observe decoded values",
       "tools/layouts.py: independent reference encoder + canonical-value generator (DESIGN 5.1)",
-      "hand-written model coq/Codec.v"]
+      "hand-written model coq/Codec.v", "coq/CanonClass.v: the class for which the round trip is proved (extracted, run on the generated values)"]
 
 
 def resizable(f):
@@ -115,6 +115,18 @@ def check(run):
                           detail="decode(encode v) must be (v, no bytes left) and re-encode to the same bytes: " + what)
         else:
             run.nontrivial.add(hash(c))
+    # how many of the generated canonical values lie inside the class the round-trip theorem is proved for
+    # (Properties/C01.v: C01_roundtrip_commands / _containers); the others are covered by model = implementation
+    # plus the oracle only
+    ccases = ["canon\t" + c.split("\t", 1)[1] for c, e in zip(cases, expect) if e is not None and c.startswith("dec\t")]
+    co = vlib.run_sharded(drv, ccases, run.workdir, "c01_canon")
+    outside = {}
+    for c, r in zip(ccases, co):
+        if r != "1":
+            t = c.split("\t")[1].split("::")[-1]
+            outside[t] = outside.get(t, 0) + 1
+    run.coverage["values_in_proved_class"] = "%d of %d" % (sum(1 for r in co if r == "1"), len(co))
+    run.coverage["values_outside_proved_class_by_type"] = dict(sorted(outside.items(), key=lambda kv: -kv[1])[:12])
     run.evaluations += len(cases)
     run.coverage["values_per_type"] = per_type
     run.coverage["types"] = len(L["structs"])
@@ -128,7 +140,8 @@ def check(run):
         run.violations = [v for v in run.violations if not v.get("no_failing_input_found")]
     return vlib.finish(run, trusted_base=TB,
                        assumptions=["canonical domain = DESIGN 5.1 as implemented by tools/layouts.py",
-                                    "the general round-trip theorem for all well-formed layouts is still partial: see Properties/C01.v"])
+                                    "the round-trip theorem covers the (layout, value) pairs of the decidable class `canon` (coverage['values_in_proved_class']); "
+                                    "values outside it (EReceiptNo padding, Some(0) under a greedy BCD field, ...) are decided by correspondence + oracle only"])
 
 
 def replay(path):
